@@ -89,10 +89,26 @@ Proof. vm_compute. reflexivity. Qed.
    `suspect_threshold is not None` / `fail_threshold is not None` / `inp.size > 0`, the comparisons
    `diff > threshold`, the flag constants and the order SUSPECT, FAIL, end points UNKNOWN, MISSING), run in the
    model's environment (diff := the model's magnitude array), yields exactly the model's flags *)
-From IoosQc Require Import Skel SkelProofs.
+From IoosQc Require Import Skel SkelBase SkelP_spike.
 Theorem C09_source_skeleton : forall method m st ft xs,
   parse_method method = Some m ->
   spike_model method st ft xs =
   Flags (run_steps (env_spike m st ft xs) skel_spike_test (all_flags (length xs) GOOD)).
 Proof. exact skel_spike. Qed.
 Print Assumptions C09_source_skeleton.
+
+(* TRANSLATOR TIE, whole function: the ARRAY PROGRAM (ref / diff for both methods: zeros, the slices
+   inp[0:-2] + inp[2:], / 2, abs, np.ma.diff, minimum of the absolute steps, the masked where-assignment
+   of 0 where the steps do not have opposite signs) AND the flag skeleton, both generated from the CURRENT
+   source of spike_test and given their numpy meaning by Arr.run_prog / Skel.run_steps, compute exactly
+   the model's flags, for every series, thresholds and known method *)
+From IoosQc Require Import Arr Gen ArrBase ArrP_spike GenBase GenP_spike.
+Theorem C09_source_program : forall method m st ft xs,
+  parse_method method = Some m ->
+  exists fl,
+    gen_flags (length xs) (fun _ => None)
+              (bind_num [("suspect_threshold", st); ("fail_threshold", ft)]) (bind_str [("method", method)])
+              prog_spike_test skel_spike_test ["inp"; "diff"] (bind_store [("inp", xs)]) GOOD = Some fl
+    /\ spike_model method st ft xs = Flags fl.
+Proof. exact gen_spike. Qed.
+Print Assumptions C09_source_program.
